@@ -68,6 +68,8 @@ type Term struct {
 	Hi   int    // OpExtract hi; OpZext/OpSext: number of added bits
 	Lo   int    // OpExtract lo
 	Name string // OpVar, OpUF
+	// HasReal: the term is, or contains, real arithmetic (nonlinear queries may not terminate quickly)
+	HasReal bool
 }
 
 type key struct {
@@ -101,6 +103,12 @@ func NewStore() *Store {
 }
 
 func (s *Store) mk(t *Term) *Term {
+	t.HasReal = t.W == RealW
+	for _, a := range t.Args {
+		if a.HasReal {
+			t.HasReal = true
+		}
+	}
 	if len(t.Args) > 3 {
 		ks := fmt.Sprintf("%d|%d|%s", t.Op, t.W, t.Name)
 		for _, a := range t.Args {
@@ -344,6 +352,13 @@ func (s *Store) Eq(a, b *Term) *Term {
 	if a.W == RealW {
 		if a.IsConst() && b.IsConst() {
 			return s.F // canonical rational strings are hash-consed: different terms, different values
+		}
+		// x - y == 0  ->  x == y
+		if b.IsConst() && b.Name == "0" && a.Op == OpRSub {
+			return s.Eq(a.Args[0], a.Args[1])
+		}
+		if a.IsConst() && a.Name == "0" && b.Op == OpRSub {
+			return s.Eq(b.Args[0], b.Args[1])
 		}
 		if a.ID > b.ID {
 			a, b = b, a
